@@ -74,6 +74,20 @@ type Options struct {
 	Edges [][2]int
 	// Idents, if set, fixes the identity of node i (len >= node count).
 	Idents []*m.Address
+	// Prompt: see simnet.Net.Prompt.
+	Prompt bool
+	// StartGaps, if set, fixes the pause before router i is started.
+	StartGaps []time.Duration
+	// LongStagger starts the routers whole seconds apart (multiples of 5 s, plus up to 2 ms):
+	// periodic workers of different routers (keep-alive every 15 s, announcements 5 s after
+	// start and then every 5 min) can then fall into the same millisecond.
+	LongStagger bool
+	// Continents places the routers in two continent prefixes: the last router in one, all
+	// others in the other (what a router stores per foreign continent is limited).
+	Continents bool
+	// RoamingSome gives about every fourth router a roaming address (fd00::/16, inside the
+	// special /12 that also holds the internal addresses) instead of one of IdentKind.
+	RoamingSome bool
 	// IdentKind selects the identity range.
 	IdentKind ident.Kind
 }
@@ -133,6 +147,22 @@ func genTopology(tp *core.Tape, n int, kind string, extra int) [][2]int {
 		for i := 1; i < n; i++ {
 			if i%w == 0 {
 				add(i-w, i)
+			}
+		}
+	case "relays": // two or three relays, every other router linked to all of them (dense: each
+		// destination is reachable over several equally short paths)
+		r := 2 + tp.Intn(2)
+		if n <= r {
+			r = 1
+		}
+		for i := r; i < n; i++ {
+			for j := 0; j < r; j++ {
+				add(j, i)
+			}
+		}
+		if n <= r {
+			for i := 0; i+1 < n; i++ {
+				add(i, i+1)
 			}
 		}
 	default: // random connected: spanning tree plus a few extra edges
@@ -197,7 +227,7 @@ func Build(e *core.Env, o Options) *Mesh {
 		}
 		ok := true
 		for i := 0; i < n && ok; i++ {
-			if CountSimplePaths(adj, i, 1500) >= 1500 {
+			if kind != "relays" && CountSimplePaths(adj, i, 1500) >= 1500 {
 				ok = false
 			}
 		}
@@ -216,10 +246,21 @@ func Build(e *core.Env, o Options) *Mesh {
 	}
 	ms := &Mesh{E: e, Net: simnet.New(e), Edges: edges, Adj: adj, Kind: kind, ByIP: map[netip.Addr]int{}}
 	e.Cleanup(ms.Net.Shutdown)
+	ms.Net.Prompt = o.Prompt
 
 	idPerm := tp.Perm(24)
 	for i := 0; i < n; i++ {
 		id := ident.Get(o.IdentKind, idPerm[i%24]+24*(i/24))
+		if o.Continents {
+			id = ident.Get(ident.ContinentA, idPerm[i%24]+24*(i/24))
+			if i == n-1 {
+				id = ident.Get(ident.ContinentB, idPerm[i%24]+24*(i/24))
+			}
+		}
+		if o.RoamingSome && tp.Chance(1, 4) {
+			id = ident.Get(ident.Roaming, idPerm[i%24]+24*(i/24))
+			e.Probe("router_with_roaming_address")
+		}
 		if i < len(o.Idents) {
 			id = o.Idents[i]
 		}
@@ -243,7 +284,13 @@ func Build(e *core.Env, o Options) *Mesh {
 		ms.registerProbe(i)
 		// Staggered starts: distinct fake offsets, so tickers of different
 		// nodes never coincide.
-		time.Sleep(time.Duration(1+tp.Intn(40))*time.Millisecond + time.Duration(i)*37*time.Microsecond)
+		if i < len(o.StartGaps) {
+			time.Sleep(o.StartGaps[i])
+		} else if o.LongStagger {
+			time.Sleep(time.Duration(tp.Intn(3))*5*time.Second + time.Duration(tp.Intn(2000))*time.Microsecond + time.Duration(i)*time.Microsecond)
+		} else {
+			time.Sleep(time.Duration(1+tp.Intn(40))*time.Millisecond + time.Duration(i)*37*time.Microsecond)
+		}
 		if err := ms.Net.AddNode(nd); err != nil {
 			e.Infra("start: %v", err)
 		}
